@@ -423,9 +423,15 @@ def r10_8(prog, out):
         bi = prog.info(b.id)
         srcs = []
         for bb, t in bi.calls():
-            if (t.callee.local or t.callee.res_local) and t.dest is not None and t.dest.is_local() and not t.callee.path.endswith("Future::poll"):
-                if (b.local_ty(t.dest.local) or "").startswith("std::result::Result<"):
-                    srcs.append((bb, t.dest.local, prog.short(prog.qual(b, t.callee.target))))
+            if t.dest is None or not t.dest.is_local() or t.callee.path.endswith("Future::poll"):
+                continue
+            dty = b.local_ty(t.dest.local) or ""
+            if (t.callee.local or t.callee.res_local) and dty.startswith("std::result::Result<"):
+                srcs.append((bb, t.dest.local, prog.short(prog.qual(b, t.callee.target))))
+            elif dty.startswith("std::result::Result<") and re.search(r", crate::[\w:]+Error>$", dty) and t.callee.path.split("::")[-1] in (
+                    "unwrap_or", "unwrap_or_else", "unwrap_or_default", "and_then", "flatten"):
+                # the outcome of one of the crate's operations, unwrapped from a library wrapper (JoinHandle / JoinSet results)
+                srcs.append((bb, t.dest.local, "%s -> %s" % (t.callee.path.split("::")[-1], short_ty(dty.split(", ")[-1].rstrip(">")))))
         for a in bi.awaits:
             r = bi._final_result_local(a)
             if r is not None and (b.local_ty(r) or "").startswith("std::result::Result<"):
